@@ -1684,16 +1684,36 @@ fn main() {
             // extern <RustType> = <coq type> <method>:<rust return type>:<coq function, `~` for blanks> ...
             "extern" if w.len() >= 4 && w[2] == "=" => {
                 let mut methods = vec![];
+                let mut margs: BTreeMap<String, Vec<Ty>> = BTreeMap::new();
                 let mut err = None;
                 for m in &w[4..] {
                     let ps: Vec<&str> = m.splitn(3, ':').collect();
                     if ps.len() != 3 {
-                        err = Some(format!("extern method `{}` is not name:type:coqfn", m));
+                        err = Some(format!("extern method `{}` is not name[(argtypes)]:type:coqfn", m));
+                        break;
+                    }
+                    // `name(t1,t2)`: a method with arguments
+                    let mname = match ps[0].split_once('(') {
+                        Some((n, rest)) => {
+                            let mut ats = vec![];
+                            for a in rest.trim_end_matches(')').split(',').filter(|a| !a.is_empty()) {
+                                let t: R<Type> = syn::parse_str(a).map_err(|e| e.to_string());
+                                match t.and_then(|t| d.conv(&t, &BTreeSet::new(), None, None)) {
+                                    Ok(t) => ats.push(t),
+                                    Err(e) => err = Some(e),
+                                }
+                            }
+                            margs.insert(n.to_string(), ats);
+                            n
+                        }
+                        None => ps[0],
+                    };
+                    if err.is_some() {
                         break;
                     }
                     let t: R<Type> = syn::parse_str(ps[1]).map_err(|e| e.to_string());
                     match t.and_then(|t| d.conv(&t, &BTreeSet::new(), None, None)) {
-                        Ok(t) => methods.push((ps[0].to_string(), t, ps[2].replace('~', " "))),
+                        Ok(t) => methods.push((mname.to_string(), t, ps[2].replace('~', " "))),
                         Err(e) => {
                             err = Some(e);
                             break;
@@ -1703,7 +1723,7 @@ fn main() {
                 match err {
                     Some(e) => Err(e),
                     None => {
-                        d.tables.externs.insert(w[1].to_string(), ExternInfo { name: w[1].to_string(), coq_ty: w[3].replace('~', " "), methods, row: None, consts: vec![], statics: vec![] });
+                        d.tables.externs.insert(w[1].to_string(), ExternInfo { name: w[1].to_string(), coq_ty: w[3].replace('~', " "), methods, margs, row: None, consts: vec![], statics: vec![] });
                         Ok(())
                     }
                 }
@@ -1723,7 +1743,7 @@ fn main() {
             }
             // mtype <M_name> = <coq type of values> <coq type of the row> [const:NAME:type:coqfn | method:name:type:coqfn | fn:name:argtypes:rettype:coqfn]...
             "mtype" if w.len() >= 5 && w[2] == "=" => {
-                let mut x = ExternInfo { name: w[1].to_string(), coq_ty: w[3].replace('~', " "), methods: vec![], row: Some(w[1].to_string()), consts: vec![], statics: vec![] };
+                let mut x = ExternInfo { name: w[1].to_string(), coq_ty: w[3].replace('~', " "), methods: vec![], margs: BTreeMap::new(), row: Some(w[1].to_string()), consts: vec![], statics: vec![] };
                 let mut err = None;
                 let ty_of = |d: &Driver, s: &str| -> R<Ty> {
                     if s == "Self" {
